@@ -104,3 +104,7 @@ Proof.
   - exfalso. pose proof (find_none _ _ Ef (lang, q) (proj2 (sort_desc_in _ _) Hin)) as Hn.
     cbn [fst] in Hn. congruence.
 Qed.
+
+Lemma negotiate_header_supported parse_q supported h :
+  negotiate_header parse_q supported h = [] \/ In (negotiate_header parse_q supported h) supported.
+Proof. unfold negotiate_header. apply negotiate_supported. Qed.
